@@ -1,6 +1,5 @@
 SPECIFICATION Spec
 CONSTANTS
-  SafeFit = 900
-  MaxDatagram = 1280
+  Overhead = 250
 POSTCONDITION TraceAccepted
 CHECK_DEADLOCK FALSE
